@@ -11,6 +11,7 @@ O1 = "01" * 20
 P1 = "02" * 20
 P2 = "33" * 20
 C1 = "03" * 20
+PZ = "4400" + "44" * 17 + "00"      # a provider address with 0x00 bytes (the key separator)
 
 
 def genesis(max_timeout=100, mult=200, min_dep="6000", tax="100000000000000000", slash="1000000000000000",
@@ -58,6 +59,22 @@ def lifecycle_grid(T=2, F=4, total=3, horizon=11):
                     ops.append(f"start ctx={cid} cons={C1}")
                 ops.append("endblock dt=5000000000")
             out.append((f"grid:pause@{i}:start@{j}:T{T}F{F}N{total}", ops))
+    # the batch is completed by its response one block after it started; pause / start around its (still queued) expiry
+    T2, F2 = 3, 5
+    call2 = (f"call tx={tx(0xC10)} idx=0 svc=svc provs={P1} cons={C1} cap=10 timeout={T2} super=0 rep=1 "
+             f"freq={F2} total=3 input=ok")
+    for i in range(1, T2 + 3):
+        for j in range(i, T2 + 4):
+            ops = prelude() + [call2]
+            for k in range(2 * F2 + T2 + 4):
+                if k == i:
+                    ops.append(f"pause ctx={cid} cons={C1}")
+                if k == j:
+                    ops.append(f"start ctx={cid} cons={C1}")
+                ops.append("endblock dt=5000000000")
+                if k == 0:
+                    ops.append(f"respond req={req_id(0xC10, 1, 1, 0)} prov={P1} code=200 out=valid")
+            out.append((f"grid:answered:pause@{i}:start@{j}:T{T2}F{F2}N3", ops))
     for i in range(0, horizon):
         ops = prelude() + [call]
         for k in range(horizon + 2):
@@ -157,7 +174,7 @@ def query_grid():
                 qs.append(f"query via={via} kind=bindings svc={name} owner=-")
                 for o in (O1, O2, C1):
                     qs.append(f"query via={via} kind=bindings svc={name} owner={o}")
-                for pv in (P1, P2, C1):
+                for pv in (P1, P2, PZ, C1):
                     qs.append(f"query via={via} kind=binding svc={name} prov={pv}")
                     qs.append(f"query via={via} kind=requests svc={name} prov={pv}")
             for o in (O1, O2, C1, P1):
@@ -180,6 +197,8 @@ def query_grid():
            f"bind svc=a-b prov={P1} owner={O1} dep=10000 price=6stake promT=- promV=- qos=1",
            f"bind svc=a prov={P2} owner={O2} dep=10000 price=7stake promT=- promV=- qos=1",
            f"bind svc=ab prov={P2} owner={O2} dep=10000 price=8stake promT=- promV=- qos=1",
+           f"bind svc=a prov={PZ} owner={O1} dep=10000 price=9stake promT=- promV=- qos=9",
+           f"bind svc=ab prov={PZ} owner={O1} dep=10000 price=9stake promT=- promV=- qos=9",
            f"setwd owner={O1} addr={C1}"]
     ops += queries()
     ops.append(f"call tx={tx(0xC17)} idx=0 svc=a provs={P1},{P2} cons={C1} cap=100 timeout=3 super=0 rep=1 freq=4 total=3 input=ok")
